@@ -27,7 +27,13 @@
 //!     can be rolled back to with its recorded observation vector.
 //!
 //! Variants per case (drawn from the case seed): auto-checkpoints on/off, 4-dim or 384-dim vectors,
-//! router query cache on (relational statements only), HNSW cache built after the checkpoint.
+//! router query cache on (relational statements only), VectorEngine HNSW cache built after the checkpoint
+//! (observed through four SIMILAR statements on the legacy `QueryRouter::execute` path, the only router path
+//! that consults that cache), relational b-tree indexes created through the engine API (consulted by text
+//! and float range conditions and by UPDATE / DELETE).
+//!
+//! Not judged: an index built with `QueryRouter::build_vector_index()` is a manual snapshot that no write
+//! ever refreshes (and whose scores differ from the exact search in the last bit), so programs never build it.
 
 use common::*;
 use query_router::{QueryResult, QueryRouter};
@@ -66,8 +72,6 @@ enum Item {
     /// VectorEngine::build_and_cache_index (set-up call, not an observation); consulted by the legacy
     /// `QueryRouter::execute("SIMILAR ..")` path
     Hnsw,
-    /// QueryRouter::build_vector_index (set-up call); consulted by `execute_parsed("SIMILAR .. COSINE")`
-    RouterHnsw,
     /// RelationalEngine::create_btree_index(table, column) (set-up call); consulted by range conditions
     /// that the slab SIMD filter does not handle (text, float <= / >=) and by UPDATE / DELETE
     Btree { table: String, col: String },
@@ -88,7 +92,6 @@ impl Item {
             Item::Rb { label, by_id } => format!("ROLLBACK TO {}", if *by_id { format!("'<id of cp{}>'", label) } else { format!("'cp{}'", label) }),
             Item::Battery => "-- battery: INSERT/UPDATE/DELETE/CREATE TABLE/CREATE INDEX/NODE CREATE/EDGE CREATE/EMBED STORE must work".into(),
             Item::Hnsw => "-- router.vector().build_and_cache_index(HNSWConfig::default())".into(),
-            Item::RouterHnsw => "-- router.build_vector_index()".into(),
             Item::Btree { table, col } => format!("-- router.relational().create_btree_index(\"{}\", \"{}\")", table, col),
             Item::Sleep(ms) => format!("-- sleep {} ms", ms),
         }
@@ -355,8 +358,7 @@ struct CpRec {
     id: String,
     name: String,
     obs: Vec<Ans>,
-    /// no approximate index could have answered the SIMILAR statements when they were recorded
-    sim_exact: bool,
+    /// no approximate index could have answered the legacy-path SIMILAR statements when they were recorded
     legacy_sim_exact: bool,
     /// a write succeeded since this checkpoint was taken (for the non-triviality rule)
     nonempty: bool,
@@ -408,7 +410,6 @@ struct Runner {
     node_hi: u64,
     edge_hi: u64,
     hnsw_live: bool,
-    router_hnsw_built: bool,
     btree_tables: BTreeSet<String>,
     bat_n: u32,
     viols: Vec<Viol>,
@@ -451,7 +452,6 @@ impl Runner {
             node_hi: 0,
             edge_hi: 0,
             hnsw_live: false,
-            router_hnsw_built: false,
             btree_tables: BTreeSet::new(),
             bat_n: 0,
             viols: Vec::new(),
@@ -477,6 +477,11 @@ impl Runner {
         let at = self.log.len().saturating_sub(1);
         let sig = sig.into();
         let detail = detail.into();
+        if detail.to_ascii_lowercase().contains("timeout") || detail.to_ascii_lowercase().contains("timed out") {
+            // the engines have wall-clock query deadlines; on a loaded machine a deadline is not a verdict
+            count(&mut self.counters, "inconclusive_engine_timeouts", 1);
+            return;
+        }
         if self.trace {
             eprintln!("!!! VIOLATION {} at item {}: {}", sig, at, detail);
         }
@@ -659,7 +664,7 @@ impl Runner {
         } else if self.cfg.strict_retention {
             count(&mut self.counters, "retention_list_checks_passed", 1);
         }
-        self.recs.insert(label, CpRec { id, name, obs, sim_exact: !self.router_hnsw_built, legacy_sim_exact: !self.router_hnsw_built && !self.hnsw_live, nonempty: false });
+        self.recs.insert(label, CpRec { id, name, obs, legacy_sim_exact: !self.hnsw_live, nonempty: false });
     }
 
     fn do_rollback(&mut self, label: u32, by_id: bool) {
@@ -711,29 +716,28 @@ impl Runner {
 
         // ---- data: every observation query answers as recorded
         let now = self.observe();
-        let (nonempty, sim_exact, legacy_sim_exact) = self.recs.get(&label).map(|r| (r.nonempty, r.sim_exact, r.legacy_sim_exact)).unwrap_or((false, true, true));
+        let (nonempty, legacy_sim_exact) = self.recs.get(&label).map(|r| (r.nonempty, r.legacy_sim_exact)).unwrap_or((false, true));
         let mut seen: BTreeMap<String, (u64, String)> = BTreeMap::new();
         let mut compared = 0u64;
         if let Some(rec) = self.recs.get(&label) {
             for (i, q) in self.queries.iter().enumerate() {
-                if (q.class == "similar" && !sim_exact) || (q.class == "legacy-execute-similar" && !legacy_sim_exact) {
+                if q.class == "legacy-execute-similar" && !legacy_sim_exact {
                     continue; // recorded while an approximate index was live: not judged
                 }
                 compared += 1;
                 if let Some(nature) = differ(&rec.obs[i], &now[i], q.limit) {
                     let table = q.text.split_whitespace().skip_while(|w| *w != "FROM").nth(1).unwrap_or("");
-                    let class = if q.class == "similar" && self.router_hnsw_built {
-                        "similar-with-router-hnsw-index-built-since-checkpoint"
-                    } else if q.class == "legacy-execute-similar" && self.router_hnsw_built {
-                        "legacy-execute-similar-with-router-hnsw-index-built-since-checkpoint"
+                    // classes whose answers come out of a derived structure (cached HNSW index, in-memory
+                    // b-tree, router query cache) get one signature each: which way the stale structure
+                    // is wrong (lost / extra / changed) only depends on the statements that ran
+                    let (class, nature) = if self.cfg.qcache {
+                        ("select", "differs")
                     } else if q.class == "legacy-execute-similar" && self.hnsw_live {
-                        "legacy-execute-similar-with-vector-engine-hnsw-cache-built-since-checkpoint"
-                    } else if q.class == "select-range-text" && self.btree_tables.contains(table) {
-                        "select-range-text-on-table-with-btree-index-created-through-engine-api"
-                    } else if q.class == "select-range-float" && self.btree_tables.contains(table) {
-                        "select-range-float-on-table-with-btree-index-created-through-engine-api"
+                        ("legacy-execute-similar-with-vector-engine-hnsw-cache-built-since-checkpoint", "differs")
+                    } else if (q.class == "select-range-text" || q.class == "select-range-float") && self.btree_tables.contains(table) {
+                        ("select-range-on-table-with-btree-index-created-through-engine-api", "differs")
                     } else {
-                        q.class
+                        (q.class, nature)
                     };
                     let sig = format!("rollback{}:{}:{}", if self.cfg.qcache { "+query-cache" } else { "" }, class, nature);
                     let e = seen.entry(sig).or_insert((0, String::new()));
@@ -818,7 +822,10 @@ impl Runner {
         macro_rules! bad {
             ($kind:expr, $nature:expr, $($arg:tt)*) => {{
                 let d = format!($($arg)*);
-                self.viol(format!("{}:{}:{}", pfx, $kind, $nature), format!("{} {}", ctx, d));
+                // with the router's query cache on, the battery's own reads may be answered from that
+                // cache: one signature for everything it then sees
+                let sig = if self.cfg.qcache { format!("{}+query-cache:differs", pfx) } else { format!("{}:{}:{}", pfx, $kind, $nature) };
+                self.viol(sig, format!("{} [{}:{}] {}", ctx, $kind, $nature, d));
             }};
         }
         let mut checked = 0u64;
@@ -1083,10 +1090,7 @@ impl Runner {
                 other => bad!("embed-store", "count-not-incremented", "COUNT EMBEDDINGS was {}, after storing the new key '{}' it gives {}", n0, key, short(&canon(&other))),
             }
             let sq = format!("SIMILAR '{}' LIMIT {}", key, n0 + 1);
-            // (an index built with QueryRouter::build_vector_index is a manual snapshot that no write
-            // refreshes, rollback or not: not judged here)
-            match if self.router_hnsw_built { Ok(QueryResult::Empty) } else { self.exec(&sq) } {
-                Ok(QueryResult::Empty) => {}
+            match self.exec(&sq) {
                 Ok(QueryResult::Similar(rs)) if rs.iter().any(|r| r.key == key) => {}
                 other => bad!("embed-store", "not-found-by-similar", "`{}` (all {} embeddings fit the limit) gave {}", sq, n0 + 1, short(&canon(&other))),
             }
@@ -1123,12 +1127,6 @@ impl Runner {
                     if self.router.vector().build_and_cache_index(vector_engine::HNSWConfig::default()).is_ok() {
                         self.hnsw_live = true;
                         count(&mut self.counters, "hnsw_caches_built", 1);
-                    }
-                }
-                Item::RouterHnsw => {
-                    if self.router.build_vector_index().is_ok() {
-                        self.router_hnsw_built = true;
-                        count(&mut self.counters, "router_hnsw_indexes_built", 1);
                     }
                 }
                 Item::Btree { table, col } => {
@@ -1217,7 +1215,7 @@ impl Gen {
 
     fn relational(&mut self, allow_destructive: bool) -> String {
         let n_tables = self.world.tables.len();
-        let w = [if n_tables < 2 { 6 } else { 1 }, 1, 2, 1, 10, 4, 3, 2];
+        let w = [if n_tables < 2 { 6 } else { 1 }, 1, 2, 1, 10, 4, 3, if self.cfg.qcache { 9 } else { 2 }];
         loop {
             match self.rng.weighted(&w) {
                 0 => {
@@ -1426,7 +1424,7 @@ impl Source for Gen {
                     self.pending_rb = view.listed_labels.clone();
                 }
                 Seg::Battery => return Some(Item::Battery),
-                Seg::Hnsw => return Some(if self.rng.chance(1, 3) { Item::RouterHnsw } else { Item::Hnsw }),
+                Seg::Hnsw => return Some(Item::Hnsw),
                 Seg::Sleep(ms) => return Some(Item::Sleep(ms)),
             }
         }
@@ -1667,6 +1665,9 @@ fn report_outcome(part: &str, case_seed: u64, cfg: &Cfg, o: Outcome, report: &mu
     for (k, v) in &o.counters {
         report.count(k, *v);
     }
+    for _ in 0..o.counters.get("inconclusive_engine_timeouts").copied().unwrap_or(0) {
+        report.inconclusive("an engine query deadline expired (loaded machine); that answer was not judged");
+    }
     let texts: Vec<String> = o.log.iter().map(|i| i.text()).collect();
     let h = hash_str(&texts.join("\n"));
     report.eval(h, o.nontrivial);
@@ -1800,13 +1801,17 @@ fn main() {
 
     let meta = Meta {
         property: "C08",
-        rule: "one evaluation = one program run on a fresh QueryRouter (blob + checkpoint manager initialised): <=40 random relational/graph/vector statements per phase, 1-4 manual checkpoints (named or unnamed; plus automatic ones before destructive statements in a quarter of the cases), 1-6 rollbacks to any still-listed checkpoint by id or by name, must-work write batteries, further phases and cycles. At every CHECKPOINT the observation vector (about 330 read statements through execute_parsed: per-table scan/equality/range/count selects over 4 tables with and without index, NODE GET/NEIGHBORS/EDGE GET for ids 1..48, NODE/EDGE LIST, FIND, graph constraints and indexes, EMBED GET, SIMILAR by vector in 3 metrics and by key, COUNT/SHOW EMBEDDINGS) is recorded and must be answered identically right after ROLLBACK TO that checkpoint; CHECKPOINTS must list the same set before and after a rollback. Retention part: max N in 1..3, N+1..N+2 named checkpoints created >= 1.1 s apart, listed set checked after every creation, then every retained checkpoint rolled back to (newest first). Distinct by the hash of the executed statement texts; non-trivial if at least one rollback was compared whose checkpoint was followed by a successful write.",
+        rule: "one evaluation = one program run on a fresh QueryRouter (blob + checkpoint manager initialised): <=40 random relational/graph/vector statements per phase, 1-4 manual checkpoints (named or unnamed; plus automatic ones before destructive statements in a quarter of the cases), 1-6 rollbacks to any still-listed checkpoint by id or by name (newest, older, or the same one again), must-work write batteries, further phases and cycles. At every CHECKPOINT the observation vector (about 370 read statements through execute_parsed: SHOW TABLES, DESCRIBE, per-table scan / int equality / text equality / int, text and float range / COUNT(*) selects over 4 tables with and without hash index, NODE GET + NEIGHBORS x3 + EDGE GET for ids 1..48, NODE/EDGE LIST, FIND NODE/EDGE, CONSTRAINT LIST, GRAPH INDEX SHOW, EMBED GET per key, SIMILAR by vector in 3 metrics and by key, COUNT/SHOW EMBEDDINGS; plus 4 SIMILAR statements through the legacy execute path) is recorded and must be answered identically right after ROLLBACK TO that checkpoint; after a rollback INSERT/UPDATE (equality, range and text conditions)/DELETE/CREATE TABLE/CREATE INDEX/NODE CREATE/EDGE CREATE/EMBED STORE must succeed, be visible and leave all other rows/nodes/edges untouched; CHECKPOINTS must list the same set before and after a rollback, every created checkpoint is listed and every listed one can be restored. Retention part: max N in 1..3, N+1..N+2 named checkpoints created >= 1.1 s apart, listed set must be exactly the newest min(i,N) after every creation, then every retained checkpoint is rolled back to (newest first) and compared. Distinct by the hash of the executed item texts; non-trivial if at least one rollback was compared whose checkpoint was followed by a successful write.",
         assumptions: vec![
-            "set-valued answers (rows, node/edge lists, neighbour ids, key lists) are compared as sets; SIMILAR answers on exact scores and on keys except inside a score tie cut by LIMIT".into(),
+            "set-valued answers (rows, node/edge lists, neighbour ids, key lists) are compared as sets; SIMILAR answers on bit-exact scores and on keys except inside a score tie cut by LIMIT".into(),
             "checkpoint creation stamps have 1 s granularity: the retention oracle only judges creations >= 1.1 s apart; in all other programs max_checkpoints = 100 so retention never acts".into(),
-            "SIMILAR answers recorded while an HNSW cache built by the harness was live are approximate and are not compared".into(),
+            "ROLLBACK TO is not a retention event: the set listed by CHECKPOINTS may not change across it".into(),
+            "legacy-path SIMILAR answers recorded while a VectorEngine HNSW cache built by the harness was live are approximate and are not compared; a correct rollback is expected to invalidate that cache like every write path of VectorEngine does".into(),
+            "an index built with QueryRouter::build_vector_index() is never built: it is a manual snapshot no write refreshes and its scores differ from the exact search in the last bit".into(),
             "with the router's query cache on, only relational statements are issued (graph/vector writes never invalidate that cache, which is outside this property)".into(),
+            "set-up calls that are not statements: VectorEngine::build_and_cache_index and RelationalEngine::create_btree_index (the router has no statement for either)".into(),
             "programs are capped at 9 checkpoints in total because every checkpoint image embeds all earlier images (size doubles per checkpoint)".into(),
+            "answers that are engine query-deadline errors are counted inconclusive, never compared".into(),
         ],
         floors: if args.replay.is_some() {
             vec![]
